@@ -1,0 +1,25 @@
+//go:build verif
+
+package network
+
+// Exports for the C20 (address parsing) correspondence harness of /verif.
+// Read-only wrappers around unexported functions plus a setter for the
+// package-level resolver variable; no behaviour of the package changes.
+
+// VerifC20GetListenAddress exposes getListenAddress.
+func VerifC20GetListenAddress(addr Address, listenAddr string) (string, error) {
+	return getListenAddress(addr, listenAddr)
+}
+
+// VerifC20ValidHostname exposes validHostname.
+func VerifC20ValidHostname(s string) bool {
+	return validHostname(s)
+}
+
+// VerifC20SetLookupHost replaces the resolver used by Address.Resolve and
+// returns a function restoring the previous one.
+func VerifC20SetLookupHost(f func(string) ([]string, error)) func() {
+	old := lookupHost
+	lookupHost = f
+	return func() { lookupHost = old }
+}
